@@ -14,6 +14,8 @@ pub enum Ty {
     Named(String),
     Tuple(Vec<Ty>),
     Opt(Box<Ty>),
+    /// `Result<A, E>`
+    Res(Box<Ty>, Box<Ty>),
     List(Box<Ty>),
     /// `Range<f64>`: flattened into two scalar arguments
     Range,
@@ -45,6 +47,7 @@ impl Ty {
             Ty::Named(n) => n.clone(),
             Ty::Tuple(v) => format!("({})", v.iter().map(|t| t.show()).collect::<Vec<_>>().join(", ")),
             Ty::Opt(t) => format!("Option<{}>", t.show()),
+            Ty::Res(a, e) => format!("Result<{}, {}>", a.show(), e.show()),
             Ty::List(t) => format!("List<{}>", t.show()),
             Ty::Range => "Range<f64>".into(),
             Ty::Into(t) => format!("impl Into<{}>", t.show()),
@@ -126,6 +129,22 @@ pub struct FnInfo {
     /// translate the body of the function's top-level `loop { .. }` as one step: the result is
     /// `Some r` for `return r` and `None` for falling off the end / `continue`
     pub loop_body: bool,
+    /// Coq expression ($i = parameters) bounding the iterations of the `while` loops of this function
+    pub fuel: Option<String>,
+    /// callers call the generated definition (not the model constant) although a model is named
+    pub call_gen: bool,
+    /// `loop_body` on the first top-level `while` of a function: the state variables become parameters
+    pub while_body: bool,
+    /// additional ambient binders of this function: (name, coq type)
+    pub extra_binders: Vec<(String, String)>,
+    /// for an extern with a callback argument `|a, b, c| { X.curve_to(a, b, c); }`: what is appended to X ($i = arguments)
+    pub callback_append: Option<String>,
+    /// render `-1.0` as the negation of the literal `1.0` (what Rust's syntax says) instead of a negative literal;
+    /// the value is the same, the model of this function happens to be written that way
+    pub neg_literal_op: bool,
+    /// the body of this function's `while` is not translated again: the loop calls the generated step function
+    /// (a `while_body_state` entry for the same Rust function) with this `gen` name
+    pub while_step: Option<String>,
     pub ret: Ty,
     pub self_ty: Option<Ty>,
     pub body: Body,
@@ -168,6 +187,8 @@ pub struct Ctx {
     pub panic_defaults: HashMap<String, String>,
     /// `X::default()` per type
     pub defaults: HashMap<String, String>,
+    /// error type -> (Coq type constructor, Ok, Err) for `Result<_, E>`
+    pub results: HashMap<String, (String, String, String)>,
 }
 
 pub fn norm_tokens<T: quote::ToTokens>(t: &T) -> String {
@@ -261,6 +282,16 @@ impl Ctx {
                             "usize" if g.usize_nat => return Ty::Nat,
                             "i32" | "usize" | "u32" | "i64" | "isize" | "u64" | "u8" => return Ty::Int,
                             "Self" => return self_ty.cloned().unwrap_or(Ty::Other(s)),
+                            "char" => return Ty::Int,
+                            "str" | "String" => return Ty::List(Box::new(Ty::Int)),
+                            "Result" => {
+                                if let syn::PathArguments::AngleBracketed(ab) = &last.arguments {
+                                    let tys: Vec<&syn::Type> = ab.args.iter().filter_map(|a| if let syn::GenericArgument::Type(t) = a { Some(t) } else { None }).collect();
+                                    if tys.len() == 2 {
+                                        return Ty::Res(Box::new(self.ty_of(tys[0], self_ty, output, g)), Box::new(self.ty_of(tys[1], self_ty, output, g)));
+                                    }
+                                }
+                            }
                             "Option" => {
                                 if let Some(a) = first_type_arg(last) {
                                     return Ty::Opt(Box::new(self.ty_of(a, self_ty, output, g)));
@@ -348,6 +379,13 @@ impl Ctx {
                 format!("({})%type", parts.join(" * "))
             }
             Ty::Opt(x) => format!("(option {})", self.coq_ty(x)?),
+            Ty::Res(a, e) => match &**e {
+                Ty::Named(en) => match self.results.get(en) {
+                    Some(r) => format!("({} {})", r.0, self.coq_ty(a)?),
+                    None => return Err(format!("Result with error type {} (not in the spec)", en)),
+                },
+                t => return Err(format!("Result with error type {}", t.show())),
+            },
             Ty::List(x) => format!("(list {})", self.coq_ty(x)?),
             Ty::Into(x) => self.coq_ty(x)?,
             Ty::Range => return Err("Range<f64> outside an argument position".into()),
@@ -415,7 +453,17 @@ pub fn load(repo: &str, spec: &Value) -> Result<Ctx, String> {
         consts: HashMap::new(),
         panic_defaults: HashMap::new(),
         defaults: HashMap::new(),
+        results: HashMap::new(),
     };
+    if let Some(m) = spec.get("results").and_then(|x| x.as_object()) {
+        for (k, v) in m {
+            if let Some(a) = v.as_array() {
+                if a.len() == 3 {
+                    ctx.results.insert(k.clone(), (a[0].as_str().unwrap_or("").to_string(), a[1].as_str().unwrap_or("").to_string(), a[2].as_str().unwrap_or("").to_string()));
+                }
+            }
+        }
+    }
     if let Some(m) = spec.get("defaults").and_then(|x| x.as_object()) {
         for (k, v) in m {
             if let Some(s) = v.as_str() {
@@ -614,6 +662,8 @@ pub fn load(repo: &str, spec: &Value) -> Result<Ctx, String> {
                 None => format!("{}::{}", short, name),
             },
         };
+        // one iteration of the function's `while` loop, next to an entry for the whole function
+        let label = if fs.get("while_body_state").is_some() { format!("{} (loop body)", label) } else { label };
         let mut info = FnInfo {
             file: file.clone(),
             impl_ty: impl_ty.clone(),
@@ -653,6 +703,17 @@ pub fn load(repo: &str, spec: &Value) -> Result<Ctx, String> {
             stmt: jstr(fs, "stmt"),
             via: jstr(fs, "via"),
             loop_body: fs.get("loop_body").and_then(|x| x.as_bool()).unwrap_or(false),
+            fuel: jstr(fs, "fuel"),
+            call_gen: fs.get("call_gen").and_then(|x| x.as_bool()).unwrap_or(false),
+            while_body: fs.get("while_body_state").is_some(),
+            extra_binders: fs
+                .get("extra_binders")
+                .and_then(|x| x.as_array())
+                .map(|a| a.iter().map(|p| (p[0].as_str().unwrap_or("").to_string(), p[1].as_str().unwrap_or("").to_string())).collect())
+                .unwrap_or_default(),
+            callback_append: jstr(fs, "callback_append"),
+            neg_literal_op: fs.get("neg_literal_op").and_then(|x| x.as_bool()).unwrap_or(false),
+            while_step: jstr(fs, "while_step"),
             ret: Ty::Unknown,
             self_ty: None,
             body: Body::None,
@@ -807,6 +868,30 @@ pub fn load(repo: &str, spec: &Value) -> Result<Ctx, String> {
                 idx += 1;
             }
             info.params = params;
+            if let Some(st) = fs.get("while_body_state").and_then(|x| x.as_array()) {
+                // the state variables of the loop (and the variables its pattern binds) are the parameters
+                let mut ps = Vec::new();
+                let parse = |pair: &Value| -> (String, Ty) {
+                    let n = pair[0].as_str().unwrap_or("").to_string();
+                    let t = pair[1].as_str().and_then(|o| syn::parse_str::<syn::Type>(o).ok()).map(|t| ctx.ty_of(&t, self_ty.as_ref(), None, &g)).unwrap_or(Ty::Unknown);
+                    (n, t)
+                };
+                for pair in st {
+                    let (n, t) = parse(pair);
+                    ps.push(Param { pat: None, name: n, ty: t });
+                }
+                let nstate = ps.len();
+                if let Some(vs) = fs.get("while_body_vars").and_then(|x| x.as_array()) {
+                    for pair in vs {
+                        let (n, t) = parse(pair);
+                        ps.push(Param { pat: None, name: n, ty: t });
+                    }
+                }
+                info.params = ps;
+                info.mut_params = (0..nstate).collect();
+                info.has_self = false;
+                info.loop_body = true;
+            }
             let ret_override = jstr(fs, "ret").and_then(|o| syn::parse_str::<syn::Type>(&o).ok());
             info.ret = if let Some(t) = &ret_override { ctx.ty_of(t, self_ty.as_ref(), output.as_ref(), &g) } else {
             match &fd.sig.output {
